@@ -703,6 +703,11 @@ def eval_setter(model, tag, T, name, ctx, nest, prev, val):
             if prev is not None and eval_setter(model, tag, T, name, ctx, nest, None, val)[0] == "ok":
                 return ("fail", "setter", head + " -> children %s: the earlier choice was not replaced" % show(post_tags),
                         changed)
+            # ... or what is there is ANOTHER member of the exclusive choice the new child belongs to (a:custDash when
+            # the setter writes a:prstDash): a property setter that chooses one member must displace the other
+            if prev is None and added and set(added).isdisjoint(base) and model.same_choice(T, base, added):
+                return ("fail", "setter", head + " -> children %s: the other member of the choice was not displaced" % show(post_tags),
+                        changed)
             return ("unplaceable", None, None, changed)
         return ("fail", "setter-order", head + " -> children %s which the schema does not allow" % show(post_tags), changed)
     errs = _deep_errors(parent, T)
